@@ -185,6 +185,48 @@ func longIndexSweep(c *Ctx, cfg Cfg, length, idx int) []Violation {
 					}
 				}
 			}
+			// two unions built from the same base search do not disturb each other (nor the base)
+			for v := 0; v < 3; v++ {
+				cnt := [3]int{}
+				for _, m := range model {
+					cnt[m.v]++
+				}
+				v1, v2 := (v+1)%3, (v+2)%3
+				base := db.Search(&Wide{}, "A", "=", v)
+				u1 := base.Or("B", "=", wideB(v1))
+				u2 := base.Or("A", "=", v2)
+				if base.Err() != nil || u1.Err() != nil || u2.Err() != nil {
+					fail("union-err", fmt.Sprintf("%s: unions of Search(A = %d) failed: %v %v %v", after, v, base.Err(), u1.Err(), u2.Err()))
+					return false
+				}
+				check := func(s *sod.Search, what string, want map[int]bool, n int) bool {
+					objs, err := s.Collect()
+					if err != nil || len(objs) != n || s.Len() != n {
+						fail("union-size", fmt.Sprintf("%s: %s holds %d objects (Len %d, err %v), expected %d", after, what, len(objs), s.Len(), err, n))
+						return false
+					}
+					seen := map[string]bool{}
+					for _, o := range objs {
+						w := o.(*Wide)
+						if !want[w.A] || seen[w.UUID()] {
+							fail("union-member", fmt.Sprintf("%s: %s holds an object with A=%d (or one object twice)", after, what, w.A))
+							return false
+						}
+						seen[w.UUID()] = true
+					}
+					return true
+				}
+				if !check(u1, fmt.Sprintf("Search(A = %d).Or(B = %s), built before a second union of the same search,", v, wideB(v1)), map[int]bool{v: true, v1: true}, cnt[v]+cnt[v1]) ||
+					!check(u2, fmt.Sprintf("Search(A = %d).Or(A = %d), built after another union of the same search,", v, v2), map[int]bool{v: true, v2: true}, cnt[v]+cnt[v2]) ||
+					!check(base, fmt.Sprintf("Search(A = %d) after two unions were built from it", v), map[int]bool{v: true}, cnt[v]) {
+					return false
+				}
+				// and a refinement of the same base
+				a1 := base.And("B", "=", wideB(v))
+				if !check(a1, fmt.Sprintf("Search(A = %d).And(B = %s)", v, wideB(v)), map[int]bool{v: true}, cnt[v]) || !check(u1, "the first union, after the refinement was built,", map[int]bool{v: true, v1: true}, cnt[v]+cnt[v1]) {
+					return false
+				}
+			}
 			// the whole index, in order
 			var idx []int
 			if err := db.AssignIndex(&Wide{}, "A", &idx); err != nil {
@@ -285,6 +327,15 @@ func runC02Long(c *Ctx) {
 	}
 	item := 0
 	for _, cfg := range cfgs {
+		item++
+		if item%c.NShards == c.Shard {
+			for _, v := range unionSeries(c, cfg, 40) {
+				c.Violation(v)
+			}
+			c.Distinct("states", "unionseries|"+cfg.String())
+		}
+	}
+	for _, cfg := range cfgs {
 		total := 1
 		for i := 0; i < maxLen; i++ {
 			total *= 3
@@ -337,6 +388,7 @@ func longOrderSweep(c *Ctx, cfg Cfg, length, idx int) []Violation {
 			return
 		}
 		nobj := 0
+		vals := map[string]int{} // uuid -> value of the live objects
 		ids := func(objs []sod.Object) []string {
 			out := make([]string, len(objs))
 			for i, o := range objs {
@@ -366,6 +418,31 @@ func longOrderSweep(c *Ctx, cfg Cfg, length, idx int) []Violation {
 							base, err := mk(chain).Collect()
 							if err != nil {
 								fail("collect-err", fmt.Sprintf("%s: %s failed: %v", after, q, err))
+								return false
+							}
+							wantN := 0
+							for _, v := range vals {
+								ok := false
+								switch op {
+								case "=":
+									ok = v == p
+								case "!=":
+									ok = v != p
+								case "<":
+									ok = v < p
+								case "<=":
+									ok = v <= p
+								case ">":
+									ok = v > p
+								case ">=":
+									ok = v >= p
+								}
+								if ok {
+									wantN++
+								}
+							}
+							if len(base) != wantN {
+								fail("matches|"+field+op, fmt.Sprintf("%s: %s returns %d objects, %d stored objects match", after, q, len(base), wantN))
 								return false
 							}
 							for i := 1; i < len(base); i++ {
@@ -445,7 +522,6 @@ func longOrderSweep(c *Ctx, cfg Cfg, length, idx int) []Violation {
 			return true
 		}
 		var uuids []string
-		vals := map[string]int{}
 		for i, v := range digits {
 			o := &Wide{A: v, B: wideB(v), U: v, Seq: i, K: wideKey(), N: wideSerial}
 			if err := db.InsertOrUpdate(o); err != nil {
@@ -480,6 +556,7 @@ func longOrderSweep(c *Ctx, cfg Cfg, length, idx int) []Violation {
 				fail("delete", fmt.Sprintf("delete failed: %v", err))
 				return
 			}
+			delete(vals, uuids[k])
 			uuids = append(uuids[:k], uuids[k+1:]...)
 			nobj--
 			if !verify(fmt.Sprintf("after updates and deletions down to %d objects", nobj)) {
@@ -528,4 +605,80 @@ func runC13Long(c *Ctx) {
 			c.Distinct("distinct_nontrivial", key)
 		}
 	}
+}
+
+// unionSeries: result sets of every size 1..maxBase reused for two unions and a refinement
+// (slices handed from one search value to the next must never share spare capacity).
+func unionSeries(c *Ctx, cfg Cfg, maxBase int) []Violation {
+	var viol []Violation
+	fail := func(sig, what string) {
+		if len(viol) < 3 {
+			viol = append(viol, Violation{Sig: "C02|long|" + sig, What: what + "\n  under " + cfg.String(), Cfg: cfg})
+		}
+	}
+	ex := vrt.Run(vrt.Config{Sequential: true, MaxTicks: 50}, func() {
+		setGlobals(cfg)
+		fsys := vfs.New()
+		vfs.Cur = fsys
+		db := sod.Open(dbRoot)
+		if err := db.Create(&Wide{}, cfg.Schema(&Wide{})); err != nil {
+			fail("create", "Create failed: "+err.Error())
+			return
+		}
+		ins := func(v int) bool {
+			o := &Wide{A: v, B: wideB(v), U: v, K: wideKey(), N: wideSerial}
+			if err := db.InsertOrUpdate(o); err != nil {
+				fail("insert", "insert failed: "+err.Error())
+				return false
+			}
+			return true
+		}
+		if !ins(1) || !ins(2) || !ins(2) {
+			return
+		}
+		for b := 1; b <= maxBase; b++ {
+			if !ins(0) {
+				return
+			}
+			for _, field := range []string{"A", "U"} {
+				base := db.Search(&Wide{}, field, "=", 0)
+				u1 := base.Or("A", "=", 1)
+				u2 := base.Or("B", "=", wideB(2))
+				a1 := base.And("B", "=", wideB(0))
+				u3 := base.Or(field, ">", 0)
+				for _, t := range []struct {
+					s    *sod.Search
+					what string
+					want map[int]int
+				}{
+					{u1, "the first union (with A = 1)", map[int]int{0: b, 1: 1}},
+					{u2, "the second union (with B = v2)", map[int]int{0: b, 2: 2}},
+					{a1, "the refinement (and B = v0)", map[int]int{0: b}},
+					{u3, "the third union (with everything greater)", map[int]int{0: b, 1: 1, 2: 2}},
+					{base, "the base search itself", map[int]int{0: b}},
+				} {
+					objs, err := t.s.Collect()
+					got := map[int]int{}
+					seen := map[string]bool{}
+					dup := false
+					for _, o := range objs {
+						got[o.(*Wide).A]++
+						if seen[o.UUID()] {
+							dup = true
+						}
+						seen[o.UUID()] = true
+					}
+					if err != nil || dup || fmt.Sprint(got) != fmt.Sprint(t.want) || t.s.Len() != len(objs) {
+						fail("union-series", fmt.Sprintf("a search on %s with %d results was used for three unions and a refinement; afterwards %s holds %v per value (duplicate %v, Len %d, err %v), expected %v", field, b, t.what, got, dup, t.s.Len(), err, t.want))
+						return
+					}
+					c.Count("evaluations", 1)
+				}
+			}
+		}
+	})
+	for _, p := range ex.Panics {
+		fail("panic|"+normPanic(p.Value+" @ "+sodFrame(p.Stack)), "panic: "+p.Value+"\n"+trimStack(p.Stack))
+	}
+	return viol
 }
